@@ -41,9 +41,9 @@ Print Assumptions c02_loo_schur_complement.
 
 (* chain rule of the Gaussian density, quadratic half: conditioning on all-but-i splits
    r^T A^-1 r into the quadratic form of the other observations plus the standardised LOO residual
-   (every n, every i).  PARTIAL: the log-det half, det A = det A[-i,-i] * sigma_i^2, needs
-   multiplicativity of the determinant, which the Laplace-expansion [det] of Base/Exec.v does not
-   come with; log p(y) = log p(y_-i) + log p(y_i | y_-i) is therefore proved only up to that term. *)
+   (every n, every i).  PARTIAL: quadratic half only; the log-det half, det A = det A[-i,-i] * sigma_i^2,
+   and log p(y) = log p(y_-i) + log p(y_i | y_-i) are c02_quad_chain_rule / c02_density_chain_rule below
+   (Base/Det.v supplies multiplicativity of the Laplace determinant; name kept: DESIGN refers to it). *)
 Theorem c02_quad_chain_rule_partial :
   forall (K : Fld) k i (A Ainv Binv y m : M), (i <= k)%nat -> symmetric (S k) A ->
     is_inverse (S k) A Ainv -> is_inverse k (del i A) Binv ->
